@@ -58,8 +58,6 @@ func genC17(t *rapid.T) interface{} {
 	return c
 }
 
-// callGuard aborts a parse as soon as the context's call count passes a limit.
-type callLimit struct{ n int }
 
 func c17Parser(family string, variant int, limit *int) parsley.Parser {
 	perm := variant&1 != 0
